@@ -27,6 +27,11 @@ Round 11: the normaliser is found by role (`find_normaliser`); the operator clas
 value flow (`op_class_sources`: literal, module constant, closure local, parameter default + every call's argument); the
 dump function is recognised by what it is (`plain_dump_fn`: ast.dump, lambda, one-line def, functools.partial, named once);
 D1d also covers every function / class the signature function brings in besides the normaliser (`signature_closure`).
+
+Round 13: D1b follows the operand list and the captured operator class into a helper that receives them as arguments
+(`_fill_sites`: nested or module-level, recursive; the class under every parameter the call binds to it and the recursion hands
+on unchanged); `type(<n>.op)` written in place counts as the captured class; D1c reads the accumulate loop
+`X = []; for t in IT: X.append(E)` as the comprehension it is and follows the first operand through casts / copies of a local.
 """
 from __future__ import annotations
 
@@ -288,6 +293,87 @@ def signature_closure(repo: Repo, entry: str, exclude: Tuple[ast.AST, ...] = ())
     return out
 
 
+def _empty_list(e: ast.AST) -> bool:
+    """A fresh empty list: ``[]`` / ``list()`` (a typing cast around it looked through)."""
+    if isinstance(e, ast.Call) and call_attr(e) == "cast" and len(e.args) == 2:
+        e = e.args[1]
+    if isinstance(e, ast.List):
+        return not e.elts
+    return isinstance(e, ast.Call) and isinstance(e.func, ast.Name) and e.func.id == "list" and not e.args and not e.keywords
+
+
+def _receiving_param(h: ast.AST, c: ast.Call, arg: ast.AST) -> Optional[str]:
+    """The parameter of *h* that receives the argument node *arg* of the call *c* (None: starred / not bindable)."""
+    if any(isinstance(x, ast.Starred) for x in c.args) or any(k.arg is None for k in c.keywords):
+        return None
+    pos = [x.arg for x in h.args.posonlyargs + h.args.args]
+    for i, x in enumerate(c.args):
+        if x is arg:
+            return pos[i] if i < len(pos) else None
+    for k in c.keywords:
+        if k.value is arg:
+            return k.arg if k.arg in _params(h) else None
+    return None
+
+
+def _arg_of(h: ast.AST, c: ast.Call, pname: str) -> Optional[ast.AST]:
+    """The argument expression the call *c* of *h* binds to parameter *pname* (None: default / not bindable)."""
+    if any(isinstance(x, ast.Starred) for x in c.args) or any(k.arg is None for k in c.keywords):
+        return None
+    a = kwarg(c, pname)
+    if a is not None:
+        return a
+    pos = [x.arg for x in h.args.posonlyargs + h.args.args]
+    if pname in pos and pos.index(pname) < len(c.args):
+        return c.args[pos.index(pname)]
+    return None
+
+
+def _fill_sites(scope: List[ast.AST], scope_fn: ast.AST, lname: str, opnames: Set[str], root: ast.AST, mod_tree: Optional[ast.AST],
+                seen: Optional[Set[Tuple[int, str]]] = None, is_op: Optional[Callable[[ast.AST], bool]] = None) -> List[Tuple[ast.AST, ast.Call, Set[str]]]:
+    """Where the list known as *lname* in the statements *scope* is filled: (function, append/extend/insert call, names that
+    hold the captured operator class there). The list is followed into every function it is handed to as an argument (a def
+    nested in the normaliser or a module-level one, found through the binding of the called name): there it goes under the
+    receiving parameter's name, and the operator class under every parameter that the call binds to a name holding it and that
+    the helper's own recursive calls hand on unchanged."""
+    seen = set() if seen is None else seen
+    out: List[Tuple[ast.AST, ast.Call, Set[str]]] = []
+    for st in scope:
+        for n in ast.walk(st):
+            if not isinstance(n, ast.Call):
+                continue
+            if isinstance(n.func, ast.Attribute) and n.func.attr in ("append", "extend", "insert") and isinstance(n.func.value, ast.Name) and n.func.value.id == lname:
+                f = next((a for a in ancestors(n) if isinstance(a, FuncNode)), None)
+                if f is not None and f is not scope_fn and lname in _params(f):
+                    continue  # another object under the same name
+                out.append((f, n, set(opnames) if f is scope_fn or f is None else set(opnames) - _params(f)))
+                continue
+            handed = [a for a in list(n.args) + [k.value for k in n.keywords] if isinstance(a, ast.Name) and a.id == lname]
+            if not handed or not isinstance(n.func, ast.Name):
+                continue
+            b = _bindings(n.func.id, n, mod_tree)
+            if not b or len(b) != 1 or not isinstance(b[0], FuncNode):
+                continue
+            h = b[0]
+            p = _receiving_param(h, n, handed[0])
+            if p is None or (id(h), p) in seen:
+                continue
+            seen.add((id(h), p))
+            own_calls = [c for c in ast.walk(h) if isinstance(c, ast.Call) and isinstance(c.func, ast.Name) and c.func.id == h.name]
+            inner_ops: Set[str] = set()
+            for q in _params(h):
+                a = _arg_of(h, n, q)
+                if not ((isinstance(a, ast.Name) and a.id in opnames) or (a is not None and is_op is not None and is_op(a))):
+                    continue
+                if all(isinstance(_arg_of(h, c, q), ast.Name) and _arg_of(h, c, q).id == q for c in own_calls):
+                    inner_ops.add(q)
+            if any(x is root for x in ancestors(h)):
+                inner_ops |= set(opnames) - _params(h)  # a nested helper still sees the enclosing names
+            out.extend(_fill_sites(list(h.body), h, p, inner_ops, root, mod_tree, seen, is_op))
+    return out
+
+
+
 def find_normaliser(repo: Repo) -> ast.AST:
     """The normaliser, by role: the module-level function the public signature function calls (directly or through other
     module-level functions) that tests the operator class of a node (``isinstance(<x>.op, ..)``)."""
@@ -381,25 +467,39 @@ def run(repo: Repo, R: Report) -> None:
         if isinstance(st, ast.Assign) and isinstance(st.value, ast.Call) and call_attr(st.value) == "type" and len(st.value.args) == 1 and dotted_name(st.value.args[0]) == f"{nparam}.op":
             op_vars |= {t.id for t in st.targets if isinstance(t, ast.Name)}
 
+    def type_of_op(e: Optional[ast.AST]) -> bool:
+        """*e* is ``type(<n>.op)`` written where <n> still is the node the tree walk was called with (the captured operator
+        class without a local of its own): inside the walk or a function nested in it that does not rebind the name."""
+        if not (isinstance(e, ast.Call) and isinstance(e.func, ast.Name) and e.func.id == "type" and len(e.args) == 1 and not e.keywords
+                and dotted_name(e.args[0]) == f"{nparam}.op"):
+            return False
+        if any(isinstance(x, ast.Name) and x.id == nparam and isinstance(x.ctx, (ast.Store, ast.Del)) for x in ast.walk(inner_norm)):
+            return False
+        for a in ancestors(e):
+            if a is inner_norm:
+                return True
+            if isinstance(a, FuncNode + (ast.Lambda,)) and nparam in _params(a):
+                return False
+        return False
+
     # ---- D1b flattening ---------------------------------------------------
     r_flat = R.rule("C12-D1b-flatten", "operands are collected through same-operator BinOps only, and completely: an expression enters the operand list only on a branch where it is known not to be a same-operator BinOp; both children of a matched BinOp are forwarded", 3)
-    # operand list: a local list to which things are appended inside the branch (incl. nested helper)
-    list_names: Dict[str, int] = {}
-    for st in branch:
-        for n in ast.walk(st):
-            if isinstance(n, ast.Call) and call_attr(n) in ("append", "extend", "insert") and isinstance(n.func, ast.Attribute) and isinstance(n.func.value, ast.Name):
-                list_names[n.func.value.id] = list_names.get(n.func.value.id, 0) + 1
-    # choose the list that later feeds the normalisation (first one defined as [] in the branch)
+    # operand list: a local bound to a fresh empty list in the branch that is filled there - in place, by a nested helper that
+    # closes over it, or by a helper (nested or module-level, recursive or not) that receives it as an argument: the list and
+    # the captured operator class are followed into the helper's parameters (`_fill_sites`)
     terms_name = None
+    append_sites: List[Tuple[ast.AST, ast.Call, Set[str]]] = []
     for st in branch:
         tgt = None
         if isinstance(st, ast.Assign) and len(st.targets) == 1 and isinstance(st.targets[0], ast.Name):
             tgt, val = st.targets[0].id, st.value
         elif isinstance(st, ast.AnnAssign) and isinstance(st.target, ast.Name):
             tgt, val = st.target.id, st.value
-        if tgt and tgt in list_names and isinstance(val, ast.List) and not val.elts:
-            terms_name = tgt
-            break
+        if tgt and val is not None and _empty_list(val):
+            sites = _fill_sites(list(branch), inner_norm, tgt, set(op_vars), fn, mod_tree, None, type_of_op)
+            if sites:
+                terms_name, append_sites = tgt, sites
+                break
     if terms_name is None:
         raise AnalysisError("_dump_ast_commutative: operand list not found in the commutative branch")
 
@@ -414,17 +514,8 @@ def run(repo: Repo, R: Report) -> None:
             return None
         return atom
 
-    # functions in which appends to the operand list happen
-    append_sites: List[Tuple[ast.AST, ast.Call]] = []
-    for st in branch:
-        for n in ast.walk(st):
-            if isinstance(n, ast.Call) and isinstance(n.func, ast.Attribute) and dotted_name(n.func.value) == terms_name and n.func.attr in ("append", "extend", "insert"):
-                f = next((a for a in ancestors(n) if isinstance(a, FuncNode)), None)
-                append_sites.append((f, n))
-    if not append_sites:
-        raise AnalysisError("no append to the operand list found")
     matched_vars: Set[str] = set()
-    for f, call in append_sites:
+    for f, call, site_ops in append_sites:
         if f is None:
             raise AnalysisError("append outside a function")
         g = CFG(f)
@@ -447,7 +538,7 @@ def run(repo: Repo, R: Report) -> None:
                     for v, classes in find_isinstance_on_op(n.part):
                         if v == var:
                             names = [dotted_name(c) for c in classes]
-                            if not (len(classes) == 1 and names[0] in op_vars):
+                            if not (len(classes) == 1 and (names[0] in site_ops or type_of_op(classes[0]))):
                                 same_op_ok = False
                 for lab in e:
                     blocked.add((n.id, lab))
@@ -460,7 +551,7 @@ def run(repo: Repo, R: Report) -> None:
                 "flattening descends through an operator other than the one being normalised (mixes + and * chains)", call.lineno)
         matched_vars.add(var)
     # both children of a matched node forwarded
-    for f in {id(f): f for f, _ in append_sites}.values():
+    for f in {id(f): f for f, _c, _o in append_sites}.values():
         used = {dotted_name(x) for x in ast.walk(f) if isinstance(x, ast.Attribute)}
         for var in sorted(matched_vars):
             base = var.split(".")[0]
@@ -533,14 +624,47 @@ def run(repo: Repo, R: Report) -> None:
         # the key denotes t -> ast.dump(t, include_attributes=False), however it is spelled (lambda, partial, named local)
         return key is not None and plain_dump_fn(key, parent(key) or inner_norm, mod_tree)
 
+    def as_comprehension(i: int) -> Optional[Tuple[str, ast.AST]]:
+        """Statement *i* of the branch read as ``X = [E for t in IT]`` / ``[.. if C]`` when it is the accumulate loop
+        ``for t in IT: X.append(E)`` (optionally under one ``if C:``) over a list X that the branch bound to a fresh empty
+        list before the loop and did not mention in between."""
+        lp = branch[i]
+        if not isinstance(lp, ast.For) or lp.orelse or len(lp.body) != 1:
+            return None
+        inner, ifs = lp.body[0], []
+        if isinstance(inner, ast.If) and not inner.orelse and len(inner.body) == 1:
+            inner, ifs = inner.body[0], [inner.test]
+        c = inner.value if isinstance(inner, ast.Expr) else None
+        if not (isinstance(c, ast.Call) and isinstance(c.func, ast.Attribute) and c.func.attr == "append" and isinstance(c.func.value, ast.Name)
+                and len(c.args) == 1 and not c.keywords and not isinstance(c.args[0], ast.Starred)):
+            return None
+        acc_name = c.func.value.id
+        if acc_name == terms_name or any(isinstance(x, ast.Name) and x.id == acc_name for part in (lp.target, lp.iter, c.args[0], *ifs) for x in ast.walk(part)):
+            return None
+        for j in range(i - 1, -1, -1):
+            prev = branch[j]
+            tg = prev.targets if isinstance(prev, ast.Assign) else [prev.target] if isinstance(prev, ast.AnnAssign) else []
+            if len(tg) == 1 and isinstance(tg[0], ast.Name) and tg[0].id == acc_name:
+                if prev.value is not None and _empty_list(prev.value):
+                    comp = ast.ListComp(elt=c.args[0], generators=[ast.comprehension(target=lp.target, iter=lp.iter, ifs=ifs, is_async=0)])
+                    return acc_name, ast.copy_location(comp, lp)
+                return None
+            if any(isinstance(x, ast.Name) and x.id == acc_name for x in ast.walk(prev)):
+                return None
+        return None
+
     fold_var = None
-    for st in branch:
-        if isinstance(st, (ast.Assign, ast.AnnAssign)):
-            tgts = st.targets if isinstance(st, ast.Assign) else [st.target]
-            val = st.value
-            if val is None or not (len(tgts) == 1 and isinstance(tgts[0], ast.Name)):
-                continue
-            tname = tgts[0].id
+    for i_st, st in enumerate(branch):
+        loop_form = as_comprehension(i_st)
+        if isinstance(st, (ast.Assign, ast.AnnAssign)) or loop_form is not None:
+            if loop_form is not None:
+                tname, val = loop_form
+            else:
+                tgts = st.targets if isinstance(st, ast.Assign) else [st.target]
+                val = st.value
+                if val is None or not (len(tgts) == 1 and isinstance(tgts[0], ast.Name)):
+                    continue
+                tname = tgts[0].id
             if tname == terms_name:
                 continue
             src, kind = classify(val)
@@ -577,14 +701,24 @@ def run(repo: Repo, R: Report) -> None:
     R.check(tail_ok, r_ms, SEM, qualname_of(inner_norm), norm(fold_for), "refold does not iterate over all remaining operands [1:]", fold_for.lineno)
     head_ok = False
     acc = None
+    head_names: Set[str] = set()  # locals that hold the first operand (the element itself, a cast of it, a copy of such a local)
+
+    def uncast(v: Optional[ast.AST]) -> Optional[ast.AST]:
+        while isinstance(v, ast.Call) and call_attr(v) == "cast" and len(v.args) == 2 and not v.keywords:
+            v = v.args[1]
+        return v
+
     for st in branch:
-        if isinstance(st, ast.Assign) and len(st.targets) == 1 and isinstance(st.targets[0], ast.Name):
-            v = st.value
-            if isinstance(v, ast.Call) and call_attr(v) == "cast" and len(v.args) == 2:
-                v = v.args[1]
+        if isinstance(st, (ast.Assign, ast.AnnAssign)) and len(_store_targets(st)) == 1 and isinstance(_store_targets(st)[0], ast.Name) and st.value is not None \
+                and (isinstance(st, ast.AnnAssign) or len(st.targets) == 1):
+            v = uncast(st.value)
             if isinstance(v, ast.Subscript) and dotted_name(v.value) == fv and isinstance(v.slice, ast.Constant) and v.slice.value == 0:
                 head_ok = True
-                acc = st.targets[0].id
+                acc = _store_targets(st)[0].id
+                head_names.add(acc)
+            elif isinstance(v, ast.Name) and v.id in head_names:
+                acc = _store_targets(st)[0].id
+                head_names.add(acc)
     R.check(head_ok, r_ms, SEM, qualname_of(inner_norm), f"{acc} = {fv}[0]", "refold does not start from the first operand", fold_for.lineno)
     steps = derived.get(fv, [])
     R.check("norm-map" in steps and "sort" in steps and "lossy" not in steps and "unknown" not in steps, r_ms, SEM, qualname_of(inner_norm),
@@ -605,11 +739,12 @@ def run(repo: Repo, R: Report) -> None:
             for s2 in fold_for.body:
                 if isinstance(s2, ast.Assign) and isinstance(s2.targets[0], ast.Name) and lv in {n.id for n in ast.walk(s2.value) if isinstance(n, ast.Name)}:
                     alias.add(s2.targets[0].id)
+            left, right = uncast(left), uncast(right)
             body_ok = (
-                isinstance(left, ast.Name) and left.id == acc
-                and isinstance(op, ast.Call) and isinstance(op.func, ast.Name) and op.func.id in op_vars
+                isinstance(left, ast.Name) and left.id in head_names
+                and isinstance(op, ast.Call) and not op.args and not op.keywords and ((isinstance(op.func, ast.Name) and op.func.id in op_vars) or type_of_op(op.func))
                 and isinstance(right, ast.Name) and right.id in alias
-                and any(isinstance(t, ast.Name) and t.id == acc for t in st.targets)
+                and any(isinstance(t, ast.Name) and t.id == left.id for t in st.targets)
             )
     R.check(body_ok, r_ms, SEM, qualname_of(inner_norm), "refold body: acc = BinOp(left=acc, op=op_type(), right=term)", "refold does not rebuild the chain from every operand with the same operator", fold_for.lineno)
 
